@@ -165,8 +165,11 @@ impl Property for C02 {
     fn id(&self) -> &'static str {
         "C02"
     }
+    fn regimes(&self) -> &'static str {
+        crate::gen::REGIMES_CATALOGUE
+    }
     fn rule(&self) -> String {
-        "proptest: problem cases as for C01 plus histories of 0..6 caller updates and LM-driven histories (probe wrapper; small patience so that rejected-step endings occur) and one LevMarSolver::fit per case. Oracle after every update: residuals() = column-major stack of W∘Y − (W∘Phi(alpha))·C recomputed in f64 (componentwise bound), weighted_data() = W∘Y within 2 ulp, params() = applied alpha = model's alpha (bitwise); after fit: best_fit() = Phi(alpha_hat)·C_hat in the observations' shape, nonlinear_parameters() = problem.params(). Non-trivial: (non-unit weights or S>1) and a non-zero residual and >= 3 visited states".into()
+        "proptest: problem cases as for C01 plus histories of 0..6 caller updates and LM-driven histories (probe wrapper; small patience so that rejected-step endings occur) and one LevMarSolver::fit per case. Oracle after every update: residuals() = column-major stack of W∘Y − (W∘Phi(alpha))·C recomputed in f64 (componentwise bound), weighted_data() = W∘Y within 2 ulp, params() = applied alpha = model's alpha (bitwise); after fit: best_fit() = Phi(alpha_hat)·C_hat in the observations' shape, nonlinear_parameters() = problem.params(). Non-trivial: (non-unit weights or S>1) and a non-zero residual and >= 3 visited states One case in eight carries a complex-valued companion problem (damped complex oscillations built with SeparableModelBuilder<Complex<f64>>, complex weights, all four constructors, caller updates): weighted data and residual identity, with the harness' real Jacobi SVD applied to [Re A, -Im A; Im A, Re A].".into()
     }
     fn assumptions(&self) -> Vec<String> {
         vec!["Phi is the model's own evaluation".into(), "componentwise rounding bound 8(M+4) u_T (|W Y| + |W Phi||C|)".into()]
